@@ -357,12 +357,14 @@ def check_package(run, sc, g, enc, pkg, tag, rep, orders, complete, drive_calls)
                 viol(f"__mro__ of {key} contains fragment classes {sorted(mro_frags)}, model says {sorted(want)}",
                      {"observed": got["mro"]})
             # the property's premise, evaluated directly on the documents
-            for f in c["direct"]:
+            for f, evaluated_for in c["direct_at"]:
                 fd = enc.frag_by_name[f]
                 on = fd.type_condition.name.value
                 from graphql import GraphQLUnionType, InlineFragmentNode
 
-                premise = (on == c["type"] and not isinstance(enc.schema.type_map[on], GraphQLUnionType)
+                if evaluated_for != c["type"]:
+                    run.dist("direct_spread", "inside-applicable-inline-fragment")
+                premise = (on == evaluated_for and not isinstance(enc.schema.type_map[on], GraphQLUnionType)
                            and not any(isinstance(s, InlineFragmentNode) for s in fd.selection_set.selections))
                 if premise:
                     run.dist("direct_spread", "premise-holds")
@@ -537,7 +539,7 @@ def run(ctx):
     ]
     k2_and_k1a(ctx)
     base = ctx.seed * 100000
-    n_frag = 210 if ctx.thorough else 42
+    n_frag = 220 if ctx.thorough else 44
     n_main = 60 if ctx.thorough else 10
     scs = []
     for i in range(n_frag):
@@ -572,7 +574,12 @@ def run(ctx):
              "fragment DOG_ALL on Dog { ...dog_extra_1 ...itemName }"]
     defs8 = ["query Q($c: Boolean!) { dog { ...G ...Audited @include(if: $c) } }", "fragment G on Dog { bark ...Audited }",
              'fragment Audited on Dog @mixin(from: "mixins_impl", import: "MixinA") { kind owner @mixin(from: "mixins_impl", import: "MixinB") { id } }']
-    for k_, (nm_, ds_) in enumerate([("readded-fragment-imports-regression", defs8), ("case-style-regression", defs3), ("nested-mention-regression", defs4),
+    defs9 = ["query GetViewer { dog { name ... on Animal { ...AnimalFields } } }",
+             "query GetNode { animal { ...AnimalFields ... on Dog { ... on Named { ...NamedFields } } } }",
+             "query Chain { cat { ... on Animal { ... on Named { ...NamedFields } id } } }",
+             "fragment AnimalFields on Animal { id }", "fragment NamedFields on Named { name }"]
+    for k_, (nm_, ds_) in enumerate([("spread-inside-implemented-interface-condition-regression", defs9),
+                                     ("readded-fragment-imports-regression", defs8), ("case-style-regression", defs3), ("nested-mention-regression", defs4),
                                      ("coq-example:package", defs5), ("coq-example:conditional", defs6),
                                      ("coq-example:case-styles", defs7)]):
         scs.insert(2 + k_, scenario.Scenario(seed=-10 - k_, sdl=frag_scen.SDL, queries="\n\n".join(ds_) + "\n", config={},
